@@ -438,7 +438,10 @@ DESTS: dict[str, tuple] = {
 if NULL_HOST is not None:
     DESTS["null-by-numeric-host"] = ((NULL_HOST, 0), [], "after-resolution")
 
-SOURCES = ("previous-hop", "same-ip-other-port", "other-ip", "other-ip-same-port", "originator")
+SOURCES = ("previous-hop", "same-ip-other-port", "other-ip", "other-ip-same-port", "originator",
+           # addresses that merely *look like* the previous hop's: its IP as a textual suffix / prefix / with a zero-padded
+           # or widened octet - any comparison that is not an equality of the whole IP shows up here
+           "ip-textual-suffix", "ip-textual-prefix", "ip-octet-widened", "ipv6-mapped-look-alike")
 
 
 def outer_cases(thorough: bool) -> list[tuple]:
@@ -520,7 +523,11 @@ def run_outer(case: tuple, seed: int) -> tuple[list, tuple]:
             src = {"same-ip-other-port": (prev[0], prev[1] + 4321),
                    "other-ip": tuple(w.nodes["Z"].address),
                    "other-ip-same-port": ("7.7.7.7", prev[1]),
-                   "originator": tuple(w.nodes["O"].address)}[sname]
+                   "originator": tuple(w.nodes["O"].address),
+                   "ip-textual-suffix": ("1" + prev[0], prev[1]),                       # 2.2.2.2 -> 12.2.2.2
+                   "ip-textual-prefix": (prev[0] + "1", prev[1]),                       # 2.2.2.2 -> 2.2.2.21
+                   "ip-octet-widened": (prev[0].replace(".", ".1", 1), prev[1]),        # 2.2.2.2 -> 2.12.2.2
+                   "ipv6-mapped-look-alike": ("2001:db8::" + prev[0], prev[1])}[sname]
             w.inject(src, x_addr, captured.data)
             w.flush()
             w.run_for(1.0)
